@@ -153,6 +153,10 @@ func (server *SugarDB) handleCommand(ctx context.Context, message []byte, conn *
 		synchronize = subCommand.Sync
 		handler = subCommand.HandlerFunc
 	}
+	if handler == nil {
+		// A command that only exists through its sub-commands (ACL, COMMAND, MODULE) was sent without one.
+		return nil, errors.New(constants.WrongArgsResponse)
+	}
 
 	if conn != nil && server.acl != nil && !embedded {
 		// Authorize connection if it's provided and if ACL module is present
